@@ -49,9 +49,9 @@ def extra_checks(tier, rng, binaries, log):
     # (variant, io threads, connections, requests per connection[, rounds of short-lived connections])
     # the last two TSan runs are churn runs: many short-lived connections on 8 io threads, so that the handlers that add
     # and remove connections run concurrently on different strands
-    runs = [("net_driver_pool", 4, 8, 40), ("net_driver_tsan", 4, 24, 6), ("net_driver_tsan", 8, 32, 2, 16), ("net_driver_tsan", 8, 32, 2, 16)] \
+    runs = [("net_driver_pool", 4, 8, 40), ("net_driver_tsan", 4, 24, 6)] + [("net_driver_tsan", 8, 32, 2, 16)] * 5 \
         if tier == "quick" else [("net_driver_pool", 8, 32, 100), ("net_driver_pool", 16, 64, 50),
-                                 ("net_driver_tsan", 4, 16, 40), ("net_driver_tsan", 8, 32, 30)] + [("net_driver_tsan", 8, 32, 2, 16)] * 6
+                                 ("net_driver_tsan", 4, 16, 40), ("net_driver_tsan", 8, 32, 30)] + [("net_driver_tsan", 8, 32, 2, 16)] * 12
     samples = []
     n = 0
     for run in runs:
